@@ -384,6 +384,8 @@ def run(chk):
                       {"key": b["key"], "digest": b["digest"], "provider": b["provider"], "other_digest": b["bound"], "other": b["boundby"]})
     chk.extra["digest_events"] = len(evs)
     chk.extra["keys_with_2plus_providers"] = sum(1 for ps in byk.values() if len(ps) >= 2)
+    from . import x_utf8cut
+    x_utf8cut.run(chk, quick, rnd)
     chk.assumptions += ["libxcrypt (legacycrypt), the bcrypt C library and hashlib.scrypt are the independent providers",
                         "availability of a backend is what the independent probe says (known-vector hash via the provider itself)"]
 
